@@ -16,6 +16,9 @@
   * `C05_open_grants_first2`: `open` grants a handle only to a side that is then in `first2`
   * `C05_subscribers_first2_step`, `C05_subscribers_first2`, `C05_ever_subscribed`: every connection
       that is ever subscribed to one incarnation of a mailbox is bound to one of its first two sides
+  * `C05_no_message_unless_add_open`, `C05_message_recipients`, `C05_message_to_first2`: `message`
+      frames are emitted only by `add` (to connections subscribed before) and by a granted `open` (to
+      the opener): with the previous item, no third side is ever sent a message
   * `C05_keep_partial` + `C05_rejoin_counterexample` : a refused attempt changes nothing of the
       first two sides' rows, the messages or anybody's subscription; but a NEW connection of a
       first-two side is refused afterwards (K-crowded-rejoin)
@@ -791,6 +794,124 @@ theorem add_step_out {s : Sys} (hS : s.Synced) {c : Nat} {x : Conn} {app mb : St
   rw [this]
   simp
 
+theorem add_accepted {x : Conn} {ph bd : Option Val} (hr : rejectText x (.add ph bd) = none) :
+    (∃ app, x.app = some app) ∧ (∃ mb, x.mailbox = some mb) ∧ (∃ p, ph = some p) ∧ ∃ b, bd = some b := by
+  obtain ⟨happ, h⟩ := needBind_eq_none hr
+  refine ⟨happ, ?_⟩
+  cases hm : x.mailbox with
+  | none => simp [hm] at h
+  | some mb =>
+    cases ph with
+    | none => simp [hm] at h
+    | some p =>
+      cases bd with
+      | none => simp [hm] at h
+      | some b => exact ⟨⟨mb, rfl⟩, ⟨p, rfl⟩, ⟨b, rfl⟩⟩
+
+/-- **C05 (who is sent a message).**  Every `message` frame emitted by any operation (sweeps and
+    crashes included) goes to a connection that was subscribed before the operation (live delivery
+    by `add`) or to the connection whose `open` is being granted in it (replay). -/
+theorem C05_message_recipients {g : GSys} (hI : g.GInv) (op : Op) {c' : Nat} {sd : String} {ph bd : Val}
+    {rx : Time} {i : Val} {b : Bool}
+    (h : Event.frame c' (.message sd ph bd rx i) b ∈ (g.sys.step op).out) :
+    (∃ y ∈ g.sys.conns, y.id = c' ∧ y.listening = true ∧ ∃ mb, y.mailbox = some mb) ∨
+    (∃ x' ∈ (g.sys.step op.core).conns, ∃ mb, x'.id = c' ∧ x'.mailbox = some mb ∧
+      Granted g.sys op.core x' mb) := by
+  -- reduce to the wrapped operation
+  have h' : Event.frame c' (.message sd ph bd rx i) b ∈ (g.sys.step op.core).out ∧ op.core.isCrash = false := by
+    by_cases hcr : ∃ k op', op = .crashIn k op'
+    · obtain ⟨k, op', rfl⟩ := hcr
+      have h1 := out_crash_subset g.sys k op' h
+      show _ ∈ (g.sys.step op').out ∧ op'.isCrash = false
+      cases hc : op'.isCrash with
+      | true =>
+        exfalso
+        cases op' <;> first | (simp [Op.isCrash] at hc; done) | cases h1
+      | false => rw [step_eq_of_not_crash g.sys hc]; exact ⟨h1, rfl⟩
+    · have hcore : op.core = op := by
+        cases op <;> first | rfl | exact absurd ⟨_, _, rfl⟩ hcr
+      rw [hcore]
+      refine ⟨h, ?_⟩
+      cases op <;> first | rfl | exact absurd ⟨_, _, rfl⟩ hcr
+  obtain ⟨h1, hnc⟩ := h'
+  generalize op.core = op0 at h1 hnc ⊢
+  have hcore0 : op0.core = op0 := by cases op0 <;> first | rfl | simp [Op.isCrash] at hnc
+  by_cases hao : Op.isAddOrOpen op0 = true
+  · cases op0 with
+    | recv c t id cmd =>
+      cases hx : g.sys.findConn c with
+      | none => rw [recv_no_conn t id cmd hx] at h1; cases h1
+      | some x =>
+        cases hr : rejectText x cmd with
+        | some text =>
+          rw [(C17_validation_error t id hx (rejected_of_rejectText hr)).1] at h1
+          exfalso
+          split at h1 <;> simp at h1
+        | none =>
+          cases cmd with
+          | add ph' bd' =>
+            left
+            obtain ⟨⟨app, happ⟩, ⟨mb, hm⟩, ⟨p, rfl⟩, ⟨b', rfl⟩⟩ := add_accepted hr
+            obtain ⟨commits, hc, hout⟩ := add_step_out (ph := p) (bd := b') hI.synced hx happ hm t id
+            rw [hout] at h1
+            simp only [List.mem_cons, List.mem_append, List.mem_map] at h1
+            rcases h1 with h1 | h1 | ⟨c2, hc2, h1⟩
+            · cases h1
+            · obtain ⟨w, hw⟩ := hc _ h1; cases hw
+            · cases h1
+              simp only [Sys.listeners, List.mem_map, List.mem_filter, decide_eq_true_eq] at hc2
+              obtain ⟨y, ⟨hy, hl, _, hym⟩, hid⟩ := hc2
+              exact ⟨y, hy, hid, hl, mb, hym⟩
+          | open_ m =>
+            right
+            obtain ⟨⟨app, happ⟩, hnone, mb, rfl⟩ := open_accepted hr
+            obtain ⟨k1, k2, k3⟩ := open_step hI.cinv.toPInv hI.synced hx hr happ t id
+            by_cases hcl : g.sys.db.Clash app mb
+            · rw [(k1 hcl).1] at h1; simp at h1
+            · by_cases hlen : ((g.sys.db.openDb app mb (x.side.getD "") t).mbSidesOf mb).length > 2
+              · obtain ⟨⟨commits, hc, hout⟩, _⟩ := k2 hcl hlen
+                exfalso
+                rw [hout] at h1
+                simp only [List.mem_cons, List.mem_append, List.not_mem_nil, or_false] at h1
+                rcases h1 with h1 | h1 | h1
+                · cases h1
+                · obtain ⟨w, hw⟩ := hc _ h1; cases hw
+                · cases h1
+              · obtain ⟨⟨commits, hc, hout⟩, hdb, _, _, _, _, hconns⟩ := k3 hcl hlen
+                rw [hout] at h1
+                simp only [List.mem_cons, List.mem_append, replayFrames, List.mem_map] at h1
+                have hc' : c' = c := by
+                  rcases h1 with h1 | h1 | ⟨m0, _, h1⟩
+                  · cases h1
+                  · obtain ⟨w, hw⟩ := hc _ h1; cases hw
+                  · cases h1; rfl
+                subst hc'
+                have hidx : x.id = c' := findConn_id hx
+                refine ⟨{ x with mailboxId := some mb, mailbox := some mb, listening := true }, ?_, mb,
+                  hidx, rfl, ?_⟩
+                · rw [hconns]
+                  exact List.mem_map.2 ⟨x, findConn_mem hx, by simp [findConn_id hx]⟩
+                · exact ⟨c', t, id, x, app, rfl, hx, hr, happ, hcl, hlen, hdb, rfl, rfl, hidx⟩
+          | _ => simp [Op.isAddOrOpen] at hao
+    | _ => simp [Op.isAddOrOpen] at hao
+  · exfalso
+    have := C05_no_message_unless_add_open g.sys op0 (by rw [hcore0]; simpa using hao)
+    exact this _ h1 c' sd ph bd rx i b rfl
+
+/-- **C05 (no third party is sent a message).**  With "subscribers are first-two" before the
+    operation (`C05_subscribers_first2`), every `message` frame goes to a connection bound to one
+    of the first two sides of the mailbox it is subscribed to (before the operation, or — for the
+    replay of a granted `open` — after it). -/
+theorem C05_message_to_first2 {g : GSys} (hI : g.GInv) (hF : SubFirst2 g.sys) (op : Op) {c' : Nat} {sd : String}
+    {ph bd : Val} {rx : Time} {i : Val} {b : Bool}
+    (h : Event.frame c' (.message sd ph bd rx i) b ∈ (g.sys.step op).out) :
+    ∃ y mb, y.id = c' ∧ y.mailbox = some mb ∧
+      ((y ∈ g.sys.conns ∧ y.side.getD "" ∈ g.sys.db.first2 mb) ∨
+       (y ∈ (g.sys.step op.core).conns ∧ y.side.getD "" ∈ (g.sys.step op.core).db.first2 mb)) := by
+  rcases C05_message_recipients hI op h with ⟨y, hy, hid, _, mb, hm⟩ | ⟨x', hx', mb, hid, hm, hG⟩
+  · exact ⟨y, mb, hid, hm, Or.inl ⟨hy, hF y hy mb hm⟩⟩
+  · exact ⟨x', mb, hid, hm, Or.inr ⟨hx', (granted_first2 hG).1⟩⟩
+
 /-! ## C05_keep_partial: a refused attempt disturbs nobody -/
 
 /-- what a refused attempt leaves alone -/
@@ -1032,6 +1153,14 @@ theorem C05_nameplate_two_reach {g : GSys} (hg : g.Reach) (ops : List Op) (hwf :
     ∃ l : List String, l.length ≤ 2 ∧ ∀ σ, ClaimedIn g ops n σ → σ ∈ l :=
   C05_nameplate_two (fun _ h => h.ginv) hg ops hwf n
 
+theorem C05_ever_subscribed_reach {g : GSys} (hg : g.Reach)
+    (pre post : List Op) (hwf : g.WF (pre ++ post)) (mb : String)
+    (halive : ∀ p1 p2, post = p1 ++ p2 → p1 ≠ [] → ((g.run pre).run p1).sys.db.HasId mb)
+    {x : Conn} (hx : x ∈ (g.run pre).sys.conns) (hm : x.mailbox = some mb) :
+    x.side.getD "" ∈ (g.run (pre ++ post)).sys.db.first2 mb ∧
+    ((g.run (pre ++ post)).sys.db.first2 mb).length ≤ 2 :=
+  C05_ever_subscribed (fun _ h => h.ginv) hg pre post hwf mb halive hx hm
+
 /-! ## Non-vacuity and the counterexample -/
 
 namespace Ex
@@ -1083,6 +1212,22 @@ example :
       [.frame 3 (.ack (.int 1)) true, .commit .chan, .frame 3 (.error "crowded") true] ∧
     (g0.sys.step (.recv 3 200 (.int 1) (.claim (some "7") "f"))).out =
       [.frame 3 (.ack (.int 1)) true, .commit .chan, .commit .chan, .frame 3 (.error "crowded") true] := by
+  decide +kernel
+
+/-- `C05_message_recipients` / `C05_message_to_first2`: "subscribers are first-two" holds in `g0`,
+    and an `add` by connection 1 does send `message` frames — to the subscribers 1 and 2 only -/
+theorem g0_subFirst2 : SubFirst2 g0.sys := by
+  intro y hy mb hm
+  simp only [g0, sys0, List.mem_cons, List.not_mem_nil, or_false] at hy
+  rcases hy with rfl | rfl | rfl
+  · cases hm; decide
+  · cases hm; decide
+  · cases hm
+
+example : (g0.sys.step (.recv 1 200 (.int 1) (.add (some (.str "p")) (some (.str "b"))))).out =
+    [.frame 1 (.ack (.int 1)) true, .commit .chan,
+     .frame 1 (.message "s1" (.str "p") (.str "b") 200 (.int 1)) true,
+     .frame 2 (.message "s1" (.str "p") (.str "b") 200 (.int 1)) true] := by
   decide +kernel
 
 /-- a history: s1 and s2 open "m"; a third side s3 tries (refused); then s1 comes back on a NEW
@@ -1179,3 +1324,7 @@ end Wormhole
 #print axioms Wormhole.C05.C05_subscribers_first2_reach
 #print axioms Wormhole.C05.C05_nameplate_two_reach
 #print axioms Wormhole.C05.Ex.C05_rejoin_counterexample
+#print axioms Wormhole.C05.C05_no_message_unless_add_open
+#print axioms Wormhole.C05.C05_message_recipients
+#print axioms Wormhole.C05.C05_message_to_first2
+#print axioms Wormhole.C05.C05_ever_subscribed_reach
